@@ -109,6 +109,42 @@ func c05Notes(what string, o *resyncObs) error {
 		if o.unchanged[n.Path] && !o.may[n.Path] {
 			return fmt.Errorf("%s: %q reported as %s although its identity did not change", what, n.Path, n.Kind)
 		}
+		// what the event describes is what the destination now holds ("applying the
+		// events to a model of the old destination yields the new destination"):
+		// type, permission bits, device numbers, link target, mtime of non-directories
+		// (the owner goes through the receiver's filter and is C01's business)
+		if a := o.after[n.Path]; a != nil {
+			m := os.FileMode(n.Stat.Mode)
+			var nk h.Kind
+			switch {
+			case m.IsDir():
+				nk = h.KDir
+			case m&os.ModeSymlink != 0:
+				nk = h.KSymlink
+			case m&os.ModeNamedPipe != 0:
+				nk = h.KFifo
+			case m&os.ModeCharDevice != 0:
+				nk = h.KChar
+			case m&os.ModeDevice != 0:
+				nk = h.KBlock
+			case m&os.ModeSocket != 0:
+				nk = h.KSocket
+			default:
+				nk = h.KFile
+			}
+			if nk != h.KSocket && a.Kind != nk {
+				return fmt.Errorf("%s: notification says %q is a %v, the destination holds a %v", what, n.Path, nk, a.Kind)
+			}
+			if (nk == h.KChar || nk == h.KBlock) && (uint32(n.Stat.Devmajor) != a.Major || uint32(n.Stat.Devminor) != a.Minor) {
+				return fmt.Errorf("%s: notification says %q is device %d:%d, the destination holds %d:%d", what, n.Path, n.Stat.Devmajor, n.Stat.Devminor, a.Major, a.Minor)
+			}
+			if nk == h.KSymlink && n.Stat.Linkname != a.Target {
+				return fmt.Errorf("%s: notification says %q points to %q, the destination's link points to %q", what, n.Path, n.Stat.Linkname, a.Target)
+			}
+			if nk != h.KDir && nk != h.KSocket && n.Stat.ModTime != a.Mtime {
+				return fmt.Errorf("%s: notification says %q has mtime %d, the destination's entry has %d", what, n.Path, n.Stat.ModTime, a.Mtime)
+			}
+		}
 		// (5) digest = H(header(stat as sent) || bytes now stored)
 		var content []byte
 		if isRegular(st) && st.Linkname == "" {
